@@ -454,6 +454,53 @@ func init() {
 		return m.boolT(m.tryLock(a[0].(*Value)))
 	}
 	I["(*sync.RWMutex).Lock"] = I["(*sync.Mutex).Lock"]
+	// sync.Cond: FIFO tickets; Wait = unlock L, block until signalled, lock L
+	condL := func(m *Machine, c *Value) *Value {
+		st, ok := (*c).(Struct)
+		if !ok || len(st) < 2 {
+			panic(unsupported("sync.Cond representation"))
+		}
+		l, ok := st[1].(Iface)
+		if !ok || l.V == nil {
+			panic(unsupported("sync.Cond with nil / unknown Locker"))
+		}
+		lp, ok := l.V.(*Value)
+		if !ok {
+			panic(unsupported("sync.Cond Locker is not a pointer"))
+		}
+		return lp
+	}
+	I["(*sync.Cond).Wait"] = func(m *Machine, _ *frame, _ token.Pos, _ *ssa.Function, a []Value) Value {
+		c := a[0].(*Value)
+		lp := condL(m, c)
+		cs := m.condState(c)
+		ticket := cs.next
+		cs.next++
+		cs.waiting = append(cs.waiting, ticket)
+		m.unlock(lp)
+		m.block(func() bool { return cs.signalled[ticket] }, "Cond.Wait")
+		delete(cs.signalled, ticket)
+		m.lock(lp)
+		return nil
+	}
+	I["(*sync.Cond).Signal"] = func(m *Machine, _ *frame, _ token.Pos, _ *ssa.Function, a []Value) Value {
+		cs := m.condState(a[0].(*Value))
+		if len(cs.waiting) > 0 {
+			cs.signalled[cs.waiting[0]] = true
+			cs.waiting = cs.waiting[1:]
+		}
+		m.schedPoint("signal")
+		return nil
+	}
+	I["(*sync.Cond).Broadcast"] = func(m *Machine, _ *frame, _ token.Pos, _ *ssa.Function, a []Value) Value {
+		cs := m.condState(a[0].(*Value))
+		for _, t := range cs.waiting {
+			cs.signalled[t] = true
+		}
+		cs.waiting = nil
+		m.schedPoint("broadcast")
+		return nil
+	}
 	I["(*sync.RWMutex).Unlock"] = I["(*sync.Mutex).Unlock"]
 	I["(*sync.RWMutex).RLock"] = func(m *Machine, _ *frame, _ token.Pos, _ *ssa.Function, a []Value) Value {
 		m.rlock(a[0].(*Value))
